@@ -213,6 +213,9 @@ def checkTraces (isServer : Bool) (es : List Expect) (impl : List Obs) : Option 
 def handleConn (inp impl : Json) : Verdict :=
   let panic := str (field impl "panic")
   if panic != "" then { agree := false, holds := false, why := "panic: " ++ panic, cls := "panic" } else
+  -- three times in a row the machine was so slow that the 3 s retry timer may have fired outside
+  -- the script's own waits: not an observation of this script
+  if bool (field impl "slow") then { agree := true, holds := true, nontrivial := false, cls := "set-aside:machine-too-slow" } else
   let isServer := bool (field inp "server")
   let q := unhex (str (field impl "q"))
   let p := unhex (str (field impl "p"))
@@ -292,6 +295,7 @@ def parseRetryOp (j : Json) : COp :=
 def idOf (t : Trace) : Nat := (getPseudo t.req ":method").toNat?.getD 0
 
 def handleRetry (inp impl : Json) : Verdict :=
+  if bool (field impl "slow") then { agree := true, holds := true, nontrivial := false, cls := "set-aside:machine-too-slow" } else
   let panic := str (field impl "panic")
   if panic != "" then { agree := false, holds := false, why := "panic: " ++ panic } else
   let ops := (arr (field inp "ops")).map parseRetryOp
